@@ -677,6 +677,7 @@ struct Gen<'a> {
     interval: u64,
     bursts: u32,
     burst_ok: bool,
+    in_poll: bool,
 }
 
 impl<'a> Gen<'a> {
@@ -745,6 +746,9 @@ impl<'a> Gen<'a> {
 
     fn gen_body(&mut self) -> Vec<Op> {
         let mut body: Vec<Op> = vec![];
+        if self.in_poll && self.rng.pct(15) {
+            body.push(Op::HoldChild);
+        }
         let n = self.rng.below(4);
         for _ in 0..n {
             if body.len() > 9 {
@@ -1121,11 +1125,13 @@ impl<'a> Gen<'a> {
                             PollKind::PollNextItem
                         }
                     }
-                    Wrap::Sink => *self.rng.pick(&[PollKind::PollReady, PollKind::StartSend, PollKind::PollFlush, PollKind::PollClose, PollKind::PollClose]),
+                    Wrap::Sink => *self.rng.pick(&[PollKind::PollReady, PollKind::StartSend, PollKind::PollFlush, PollKind::PollClose, PollKind::PollClose, PollKind::PollCloseErr]),
                     _ => PollKind::Poll,
                 };
                 let ready = self.rng.pct(30);
+                self.in_poll = true;
                 let body = self.gen_body();
+                self.in_poll = false;
                 self.push_inner(t, Op::Poll { task, kind, ready }, body)
             }
             K::DropTask => {
@@ -1336,6 +1342,7 @@ pub fn generate_with(p: &Profile, seed: u64) -> Case {
         interval,
         bursts: 0,
         burst_ok: false,
+        in_poll: false,
     };
     // limit-overflow bursts are expensive (10k spans / 4k scopes): a few per cent of the runs
     g.burst_ok = g.rng.pct(4);
